@@ -13,7 +13,7 @@
 #include <unistd.h>
 #include <Block.h>
 
-enum { S_READ, S_READ2, S_READ_BARRIER_READ, S_CLOSE_INFLIGHT, S_STOP_INFLIGHT, S_READ_AFTER_CLOSE, S_WRITE, S_FILE_RANDOM, S_FILE_STREAM, S_INTERVAL, S_SOCK_RESET, S_WRITE_STOP };
+enum { S_READ, S_READ2, S_READ_BARRIER_READ, S_CLOSE_INFLIGHT, S_STOP_INFLIGHT, S_READ_AFTER_CLOSE, S_WRITE, S_FILE_RANDOM, S_FILE_STREAM, S_INTERVAL, S_SOCK_RESET, S_WRITE_STOP, S_TWO_CHANNELS };
 typedef struct { int kind; const char *name; int n; int chunks[5]; size_t len; size_t hw, lw; } scen;
 #define MAXSC 200
 static scen SC[MAXSC];
@@ -69,6 +69,9 @@ static void build(void)
 	add(S_WRITE_STOP, "write of 4104 bytes (two leaves) into a 4 KiB pipe, then dispatch_io_close(DISPATCH_IO_STOP); the peer drains", 4104, D1, 0, INF, INF);
 	add(S_WRITE_STOP, "write of 4104 bytes (two leaves) into a 4 KiB pipe, then dispatch_io_close(DISPATCH_IO_STOP); the peer drains", 4104, D2, 0, INF, INF);
 	add(S_WRITE_STOP, "write of 4104 bytes (two leaves) into a 4 KiB pipe, then dispatch_io_close(DISPATCH_IO_STOP); the peer drains", 4104, D2, 0, INF, 1);
+	// two channels on one descriptor: stopping one must not touch the other's operations
+	add(S_TWO_CHANNELS, "two channels on one pipe: B writes 4104 bytes, A is closed with DISPATCH_IO_STOP; the peer drains", 4104, D1, 0, INF, INF);
+	add(S_TWO_CHANNELS, "two channels on one pipe: B writes 4104 bytes, A is closed with DISPATCH_IO_STOP; the peer drains", 4104, D2, 0, INF, INF);
 	// stop while bytes are buffered below the (default) low-water mark: they must still reach the handler
 	for (int c = 0; c < 4; c++) add(S_STOP_INFLIGHT, "read SIZE_MAX in flight, then dispatch_io_close(DISPATCH_IO_STOP)", 3, C3[c], INF, INF, INF);
 }
@@ -77,7 +80,8 @@ static void build(void)
 #define MAXOPS 3
 typedef struct { unsigned char data[8300]; size_t n; int done, ninv, err, reentered, open, max_chunk, after_done, not_suffix; } oprec;
 static oprec g_op[MAXOPS];
-static int g_cleanup, g_cleanup_err, g_barrier;
+static int g_cleanup, g_cleanup_err, g_barrier, g_cleanup2;
+static dispatch_io_t g_ch2;
 static int g_fd[2], g_ffd = -1;
 static const scen *g_s;
 static dispatch_io_t g_ch;
@@ -96,7 +100,7 @@ static dispatch_io_handler_t mkhandler(int op)
 		vx_ev(EV_IOH, op, (int64_t)sz);
 		r->ninv++;
 		if ((int)sz > r->max_chunk) r->max_chunk = (int)sz;
-		int iswrite = (g_s->kind == S_WRITE || g_s->kind == S_WRITE_STOP);
+		int iswrite = (g_s->kind == S_WRITE || g_s->kind == S_WRITE_STOP || g_s->kind == S_TWO_CHANNELS);
 		if (iswrite) r->n = 0;      // a write handler is told the data that REMAINS to be written: only the last report counts
 		if (data && sz) {
 			dispatch_data_apply(data, ^bool(dispatch_data_t rg, size_t off, const void *buf, size_t len) {
@@ -115,7 +119,7 @@ static dispatch_io_handler_t mkhandler(int op)
 static void peer(void *arg)
 {
 	(void)arg;
-	if (g_s->kind == S_WRITE || g_s->kind == S_WRITE_STOP) {
+	if (g_s->kind == S_WRITE || g_s->kind == S_WRITE_STOP || g_s->kind == S_TWO_CHANNELS) {
 		// drain the pipe in the scripted chunks
 		static unsigned char sink[4104];
 		for (int i = 0; i < 5 && g_s->chunks[i]; i++) {
@@ -152,7 +156,7 @@ static void run(int v)
 {
 	build();
 	g_s = &SC[v];
-	memset(g_op, 0, sizeof g_op); g_cleanup = g_barrier = 0; g_cleanup_err = -1;
+	memset(g_op, 0, sizeof g_op); g_cleanup = g_barrier = g_cleanup2 = 0; g_cleanup_err = -1;
 	for (size_t i = 0; i < sizeof g_payload; i++) g_payload[i] = (unsigned char)('a' + i % 23);
 	vx_set_horizon(8ull * 1000000000ull);
 	vx_set_io_only(getenv("VX_IO_FULL") ? 0 : 1, getenv("VX_IO_FULL") ? 0 : 1);   // VX_IO_FULL: ordinary preemption bounding over every point instead
@@ -181,7 +185,7 @@ static void run(int v)
 			if (vx_real_write(g_fd[0], "x", 1) != 1) vx_fail("socket write");   // never read by the peer: its close resets the connection
 		} else if (pipe(g_fd)) vx_fail("pipe");
 		fcntl(g_fd[0], F_SETFL, O_NONBLOCK); fcntl(g_fd[1], F_SETFL, O_NONBLOCK);
-		int wr = (g_s->kind == S_WRITE || g_s->kind == S_WRITE_STOP);
+		int wr = (g_s->kind == S_WRITE || g_s->kind == S_WRITE_STOP || g_s->kind == S_TWO_CHANNELS);
 		if (wr) fcntl(g_fd[1], F_SETPIPE_SZ, 4096);
 		fd = wr ? g_fd[1] : g_fd[0];
 	}
@@ -221,12 +225,22 @@ static void run(int v)
 		vx_ev(EV_CLOSE, 0, 0);
 		dispatch_io_close(g_ch, 0);
 		vx_ev(EV_SUBMIT, 0, 0); dispatch_io_read(g_ch, 0, 3, g_hq, mkhandler(0)); break;
-	case S_WRITE: case S_WRITE_STOP: {
+	case S_WRITE: case S_WRITE_STOP: case S_TWO_CHANNELS: {
+		if (g_s->kind == S_TWO_CHANNELS) {
+			g_ch2 = dispatch_io_create(DISPATCH_IO_STREAM, fd, g_cq, ^(int error) { vx_ev(EV_CLEANUP, 1, error); g_cleanup2++; });
+			if (!g_ch2) vx_fail("second dispatch_io_create returned NULL");
+		}
 		dispatch_data_t a = dispatch_data_create(g_payload, 2052, NULL, DISPATCH_DATA_DESTRUCTOR_DEFAULT);
 		dispatch_data_t b = dispatch_data_create(g_payload + 2052, 2052, NULL, DISPATCH_DATA_DESTRUCTOR_DEFAULT);
 		dispatch_data_t ab = dispatch_data_create_concat(a, b);
 		vx_ev(EV_SUBMIT, 0, 0); dispatch_io_write(g_ch, 0, ab, g_hq, mkhandler(0));
 		dispatch_release(a); dispatch_release(b); dispatch_release(ab);
+		if (g_s->kind == S_TWO_CHANNELS) {
+			vx_wait_idle();     // the sibling's stop lands at a quiescence of its choice among the peer's drains
+			vx_ev(EV_CLOSE, 1, 0);
+			dispatch_io_close(g_ch2, DISPATCH_IO_STOP);
+			dispatch_release(g_ch2);
+		}
 		if (g_s->kind == S_WRITE_STOP) {
 			vx_wait_idle();     // by default the stop lands once the pipe is full; the peer's drains may come first (free choice at quiescence)
 			vx_ev(EV_CLOSE, 0, 0);
@@ -238,6 +252,7 @@ static void run(int v)
 	if (g_s->kind != S_CLOSE_INFLIGHT && g_s->kind != S_STOP_INFLIGHT && g_s->kind != S_READ_AFTER_CLOSE && g_s->kind != S_WRITE_STOP) dispatch_io_close(g_ch, 0);
 	dispatch_release(g_ch);
 	wait_int(&g_cleanup, 1);
+	if (g_s->kind == S_TWO_CHANNELS) wait_int(&g_cleanup2, 1);
 	if (th >= 0) vx_join(th);
 	vx_focus_end();
 }
@@ -251,7 +266,7 @@ static int check(int v, const vx_log *l, char *msg, size_t len)
 		if (r->reentered) FAILF(msg, len, "handler of operation %d was re-entered", i);
 		if (r->done != 1) FAILF(msg, len, "operation %d saw done set %d times", i, r->done);
 		if (r->after_done) FAILF(msg, len, "handler of operation %d was invoked again after done", i);
-		if (s->hw != INF && (size_t)r->max_chunk > s->hw && s->kind != S_WRITE && s->kind != S_WRITE_STOP)
+		if (s->hw != INF && (size_t)r->max_chunk > s->hw && s->kind != S_WRITE && s->kind != S_WRITE_STOP && s->kind != S_TWO_CHANNELS)
 			FAILF(msg, len, "operation %d delivered %d bytes in one invocation, above the high-water mark %zu", i, r->max_chunk, s->hw);
 	}
 	if (ev_count(l, EV_CLEANUP, 0) != 1) FAILF(msg, len, "cleanup handler ran %d times", ev_count(l, EV_CLEANUP, 0));
@@ -260,13 +275,14 @@ static int check(int v, const vx_log *l, char *msg, size_t len)
 	size_t ncons = 0, nwr = 0;
 	const unsigned char *cons = NULL, *wr = NULL;
 	int isfile = (s->kind == S_FILE_RANDOM || s->kind == S_FILE_STREAM);
-	int iswrite = (s->kind == S_WRITE || s->kind == S_WRITE_STOP);
+	int iswrite = (s->kind == S_WRITE || s->kind == S_WRITE_STOP || s->kind == S_TWO_CHANNELS);
 	int fd = isfile ? g_ffd : (iswrite ? g_fd[1] : g_fd[0]);
 	cons = vx_io_consumed(fd, &ncons); wr = vx_io_written(fd, &nwr);
 	if (iswrite) {
 		oprec *r = &g_op[0];
 		if (r->not_suffix) FAILF(msg, len, "a write handler invocation was given 'remaining' data that is not a suffix of the submitted data");
 		if (r->err && r->err != ECANCELED) FAILF(msg, len, "write finished with error %d", r->err);
+		if (r->err && s->kind == S_TWO_CHANNELS) FAILF(msg, len, "the write on channel B finished with error %d although only its sibling channel A was stopped", r->err);
 		if (r->err && s->kind == S_WRITE) FAILF(msg, len, "write finished with error %d although nothing interrupted it", r->err);
 		// bytes that reached the descriptor followed by the data reported as unwritten == submitted data
 		if (nwr + r->n != sizeof g_payload && !(r->err == 0 && nwr == sizeof g_payload))
